@@ -43,6 +43,7 @@ type OpProfile struct {
 	ForceName      string  // operation name to use (always sent as operationName)
 	HostileStrings bool    // string literals / variable values with quotes, backslashes, unicode, control characters
 	Pool           int     // id pool size for node roots
+	HostileAliases bool    // aliases `id` / `node` on other fields
 	PVarNamedID    float64 // a String/ID variable is named `id` (the name the gateway uses itself) and holds an object id
 	PNodeSecond    float64 // a root node selection carries a fragment on a second entity type (default 0.2)
 	ForceNodeRoot  bool    // the operation starts with a root node selection
@@ -365,6 +366,11 @@ func (g *opGen) field(parent *ast.Definition, f *ast.FieldDefinition, depth int,
 	alias := ""
 	if usedKeys[key] || g.chance(g.p.PAlias) {
 		key = pick(g.r, []string{"a", "b", "c", "x", "y", "name", "item", "id2"}) + strconv.Itoa(g.r.Intn(3))
+		if g.p.HostileAliases && f.Name != "id" && g.chance(0.3) {
+			// response keys the gateway uses itself
+			key = pick(g.r, []string{"id", "node", "id", "typename"})
+			g.tag("hostile-alias:" + key)
+		}
 		alias = key + ": "
 		g.tag("alias")
 	}
